@@ -68,8 +68,8 @@ class C15World(E2EWorld):
                 mon[w]["aband"] = True
             if w == "D":
                 for d in o.get("out", []):
-                    if d["T"] == "FIN" and mon["D"]["finpdu"] is None:
-                        mon["D"]["finpdu"] = [d["cond"], d["deliv"], d["fstat"], d["floc"]]
+                    if d["T"] == "FIN":
+                        mon["D"]["finpdu"] = [d["cond"], d["deliv"], d["fstat"], d["floc"]]  # the last Finished PDU emitted
         if ev[0] == "cancel" and out.get(ev[1], {}).get("ret") is True and ev[1] == "S":
             mon["S"]["cancel"] = True
         pd = out.get("pdu_d")
@@ -121,8 +121,15 @@ class C15World(E2EWorld):
                 bad("C15.wrong_id", f"indication {r['ind']} carries transaction id {r['tid']}, the PDUs carry {tid}", ind=r["ind"])
             if r.get("tid") is None:
                 bad("C15.wrong_id", f"indication {r['ind']} carries no transaction id", ind=r["ind"])
-        if pre["fin"] and inds:
-            bad("C15.after_finished", f"indications {[r['ind'] for r in inds]} after the Transaction-Finished indication", ind=inds[0]["ind"])
+        late = list(inds)
+        if who == "D":
+            # a further notice of completion (new Finished PDU with another condition, e.g. the cancellation after the positive ACK limit of a
+            # completed transfer) brings its own Transaction-Finished indication; judged by the receiver_finished clauses below
+            fp = [d for d in emitted if d["T"] == "FIN"]
+            if fp and pre.get("finpdu") != [fp[0]["cond"], fp[0]["deliv"], fp[0]["fstat"], fp[0]["floc"]]:
+                late = [r for r in inds if r["ind"] != "finished"]
+        if pre["fin"] and late:
+            bad("C15.after_finished", f"indications {[r['ind'] for r in late]} after the Transaction-Finished indication", ind=late[0]["ind"])
         if who == "S":
             n_eof = len([d for d in emitted if d["T"] == "EOF"])
             got = len(count("eof_sent"))
@@ -211,7 +218,9 @@ class C15World(E2EWorld):
             # completion
             fins = count("finished")
             finpdus = [d for d in emitted if d["T"] == "FIN"]
-            first_fin_pdu = finpdus and out["pre_mon"]["D"]["finpdu"] is None
+            # a completion = a Finished PDU that is not a mere re-send of the previous one (e.g. the cancellation after the positive ACK limit
+            # of an already completed transfer issues a new notice of completion with its own condition code)
+            first_fin_pdu = finpdus and out["pre_mon"]["D"]["finpdu"] != [finpdus[0]["cond"], finpdus[0]["deliv"], finpdus[0]["fstat"], finpdus[0]["floc"]]
             completed_silently = out["pre_state"]["D"] == "BUSY" and out["post_state"]["D"] == "IDLE" and not out["pre_mon"]["D"]["finpdu"] \
                 and not finpdus and not any(f["fault"] == "abandon" for f in o.get("faults", []))
             if first_fin_pdu or completed_silently:
@@ -271,6 +280,9 @@ def configs(tier):
                         ack_limit=2, nak_limit=2, check_limit=2))
     for ind, (mode, closure) in itertools.product(some, (("ack", False), ("unack", True), ("unack", False))):
         out.append(dict(ind=ind, mode=mode, closure=closure, size=2 * L + 1, seg=L, link="ff", cancels=1))
+    # the ACK of the Finished PDU is lost and the positive ACK limit (1) is reached: the cancellation is a completion of its own
+    for ind in (some[0], some[3]):
+        out.append(dict(ind=ind, mode="ack", closure=False, nak="imm", size=L + 1, seg=L, link="k", K=1, kinds=("drop",), ack_limit=1, nak_limit=2))
     # a cancel request at either entity combined with one link fault (e.g. the sender cancels while lost data is re-requested)
     for ind, nak in itertools.product((some[0], some[3]), ("imm", "def")):
         out.append(dict(ind=ind, mode="ack", closure=False, nak=nak, size=L + 1, seg=L, link="k", K=1, kinds=("drop", "delay"),
